@@ -54,6 +54,23 @@ def gen_structured(rng: random.Random):
         if rng.random() < 0.3 and len(xs) == 2:
             ctx.append({"c": {"x": 1.0, "y": 1.0}, "k": float(rng.randint(0, 4))})
         return [t], ctx + G.rtl(rng, KEEP, rng.randint(0, 1)), xs
+    if m < 0.56:   # tactic 3: one context row coupling the eliminated variables in the term's proportion (or a wrong one)
+        c1, c2 = rng.choice([(1.0, 2.0), (2.0, 1.0), (1.0, 3.0), (3.0, 2.0), (1.0, 0.5), (2.0, 2.0)])
+        sg = s()
+        t = {"c": {"a": s() * k(), "x": sg * c1, "y": sg * c2}, "k": float(rng.randint(-3, 6))}
+        f = rng.choice([1.0, 0.5, 2.0]) * rng.choice([1.0, 1.0, -1.0])
+        mode = rng.random()
+        if mode < 0.6:
+            row = {"x": f * c1, "y": f * c2}            # proportional: the change of variable applies
+        elif mode < 0.8:
+            row = {"x": f * c2, "y": f * c1}            # the inverse proportion: must decline
+        else:
+            row = {"x": f * c1, "y": -f * c2}
+        row[rng.choice(["b", "c"])] = s() * k()
+        ctx = [{"c": row, "k": float(rng.randint(-3, 6))}]
+        if rng.random() < 0.3:
+            ctx += G.rtl(rng, KEEP, 1)
+        return [t], ctx, ["x", "y"]
     if m < 0.7:    # Kaykobad-style
         n = rng.randint(1, 3)
         xs = ELIM[:n]
@@ -72,6 +89,17 @@ def gen_structured(rng: random.Random):
             ctx = [G.scale_term(r, -1.0) if rng.random() < 0.5 else r for r in ctx]
             for r in ctx:
                 r["k"] = float(rng.randint(-3, 6))
+        if rng.random() < 0.35 and n >= 2:
+            # an off-diagonal entry pointing the wrong way: the Kaykobad sign test must refuse the row
+            r = rng.choice(ctx)
+            offs = [w for w in r["c"] if w in xs]
+            if len(offs) >= 2:
+                w = rng.choice(offs)
+                r["c"][w] = -r["c"][w]
+        if rng.random() < 0.3 and n >= 2:
+            # mixed signs in the term itself
+            w = rng.choice(xs)
+            t["c"][w] = -t["c"][w]
         rng.shuffle(ctx)
         return [t], ctx, xs
     if m < 0.85:   # LP-active context (tactic 5)
